@@ -25,8 +25,7 @@ package vgirpc
 //@ pure func unitNs(u arrow.TimeUnit) int = u == 0 ? 1000000000 : (u == 1 ? 1000000 : (u == 2 ? 1000 : 1))
 //@ func timestampToTime
 //@   property C08
-//@   requires ts != nil && 0 <= ts.Unit && ts.Unit <= 3
-//@   ensures [instant] nsOf(result) == v * unitNs(ts.Unit)
+//@   ensures [instant] 0 <= ts.Unit && ts.Unit <= 3 ==> nsOf(result) == v * unitNs(ts.Unit)
 //@   ensures [utc] isUTC(result)
 
 //@ lemma date32RoundTrip [C08]: forall ns int :: dayOf(dayOf(ns) * 86400000000000) == dayOf(ns) &&
@@ -54,6 +53,6 @@ package vgirpc
 //
 //@ func setStructField
 //@   property C08
-//@   requires 0 <= idx && idx < structLen(structArr)
+//@   requires 0 <= idx && idx < arrLen(iface(structArr))
 //@   at call arrow.Array.IsNull assert [nullidx] arg1 == idx && arg0 == childArr
 //@   at call setFieldFromArrow assert [validx] arg3 == idx && arg2 == childArr
